@@ -840,6 +840,40 @@ def _one_cell(ck, st, X, K, rng, cr, ref, Eg, quick, nodata):
 
 
 # ------------------------------------------------------------------------------------------------------------
+def symmetry_sweep(ck, st, X, K, rng):
+    """Every combination of exact equalities a special-cased formula could be keyed on: five edge patterns (a=b, b=c, a=c, a=b=c, none) x each of the
+    three angles from {60, 90, 120, two generic values}: 625 cells, d-spacings of a dozen reflections (and the Bragg angle of three) against the
+    metric reference.  A shortcut valid for alpha = beta = 90 but taken for alpha = beta shows in the cells where the two differ."""
+    vals = [60.0, 90.0, 120.0, 84.5, 101.3]
+    Hs = np.array([(1, 0, 0), (0, 1, 0), (0, 0, 1), (1, 1, 0), (1, 0, 1), (0, 1, 1), (1, 1, 1), (2, -1, 0), (-1, 2, 3), (3, 1, -2), (2, 2, 1), (-3, 0, 2), (0, 0, 0)])
+    a0, b0, c0 = 4.913, 6.271, 5.405
+    n = 0
+    for ep, (a, b, c) in enumerate(((a0, a0, c0), (a0, b0, b0), (a0, b0, a0), (a0, a0, a0), (a0, b0, c0))):
+        for al in vals:
+            for be in vals:
+                for ga in vals:
+                    with np.errstate(all='ignore'):
+                        g = Geometry(a, b, c, al, be, ga)
+                    if not (g.w > 0.04):
+                        continue
+                    name = 'xvsym%d_%g_%g_%g' % (ep, al, be, ga)
+                    cs = X.make_crystal(name, [a, b, c, al, be, ga], [(14, 1.0, 0.0, 0.0, 0.0), (8, 0.5, 0.25, 0.5, 0.75)], 0.0)
+                    V, Verr, _ = val_err(X.cnum('Crystal_UnitCellVolume', cs))
+                    cs.volume = V
+                    d_ = dict(name=name, a=a, b=b, c=c, alpha=al, beta=be, gamma=ga, volume=V, atoms=[(14, 1.0, 0.0, 0.0, 0.0), (8, 0.5, 0.25, 0.5, 0.75)])
+                    cr = Crystal(name, d_, False)
+                    judge_volume(ck, st, cr, V, Verr, None, 'generated')
+                    res = [val_err(X.cnum('Crystal_dSpacing', cs, int(h[0]), int(h[1]), int(h[2]))) for h in Hs]
+                    d = np.array([r[0] for r in res]); derr = np.array([r[1] for r in res])
+                    judge_d(ck, st, cr, Hs, d, derr, pair_tables(Hs))
+                    bj = np.array([6, 8, 10]); bE = np.array([17.44, 8.04778, 30.0])
+                    rb = [val_err(X.cnum('Bragg_angle', cs, float(e), int(Hs[j][0]), int(Hs[j][1]), int(Hs[j][2]))) for j, e in zip(bj, bE)]
+                    judge_bragg(ck, st, cr, K, Hs[bj], bE, d[bj], ~derr[bj], np.array([r[0] for r in rb]), np.array([r[1] for r in rb]), lambda k_: rb[k_][2])
+                    n += 1
+    st['symmetric_cells'] = n
+    return n
+
+
 def inplace_probe(ck, st, X, rng, tier):
     """A caller-owned struct EDITED IN PLACE between two calls with bit-identical energy and Miller triple (a strain / thermal-expansion scan), and a
     crystal freed and re-fetched (the next one tends to land at the same address): every function must answer for the CONTENT it is handed, i.e.
@@ -902,6 +936,7 @@ def main(tier):
         raise common.Inconclusive('the elements assumed to lack form-factor data have some: %r' % (np.intersect1d(NODATA_Z, goodZ),))
     builtin_workload(ck, st, L, X, K, rng, tier)
     generated_workload(ck, st, X, K, rng, tier, goodZ)
+    symmetry_sweep(ck, st, X, K, rng)
     inplace_probe(ck, st, X, rng, tier)
     # a host thread in a directed rounding mode gets the same geometry and structure factors up to rounding
     _names = ['Si', 'Ge', 'AlphaAlumina', 'AlphaQuartz', 'LaB6', 'Muscovite', 'GaAs', 'Beryl']
